@@ -11,8 +11,15 @@
         free variables).
     c10_nonuniform_witness       the unrestricted statement is false of the code (known finding
         C10-F1): `for_all(u, or_(x.a == u.a, y.a > 2))`.
-  The statement under an outer conjunct `and_(d, for_all(u, c))` and caching are covered by the
-  correspondence check (see C05-F3 for caching).
+    c10_and_chain_partial        "combined with other conditions by and_": for a chain of conjuncts
+        `and_(s₁, s₂, …)` - ordinary conditions and for_alls (uniform disjunctions, non-empty
+        domains), in ANY order, several for_alls over one universal variable included - the rows
+        are exactly the projections of the assignments that satisfy every ordinary conjunct and
+        every for_all's condition for EVERY value of its universal variable (induction over the
+        chain with a soundness/completeness invariant: stages_inv, stage_sound, stage_complete).
+    rowsForAll_eq_stages(_none)  the single-for_all entry point is the one/two-conjunct chain.
+  Model only (correspondence, no theorem): nested for_alls (`evalForAllN`), a conjunct that
+  mentions a universal variable free, caching (see C05-F3).
 -/
 import EqlModel.ForAll
 import EqlModel.Lemmas.Support
@@ -416,5 +423,370 @@ theorem c10_nonuniform_witness :
 example :
     let D : VarId → List Nat := fun v => if v = 0 then [1, 2, 3] else [1, 2]
     rowsForAll natWorld D [.var 0] none 1 (.cmp .ge (.var 0) (.var 1)) = [[2], [3]] := by decide
+
+/-! ### `and_`-chains: `and_(d, for_all(u₁, c₁), for_all(u₂, c₂), …)`, conjuncts in any order -/
+
+section Chain
+variable [Inhabited V]
+
+theorem mergeBack_canon' (ids : List VarId) (α : Asg V) (β : Bnd V) :
+    mergeBack (canonOf ids α) β = (ids.map fun k => (k, α k)) ++ β := by
+  have h := mergeBack_canon ids α
+  simp only [mergeBack, List.append_nil] at h ⊢
+  rw [h]
+
+/-- `sols_mem` under an arbitrary incoming binding that leaves the universal variable free. -/
+theorem sols_mem_ctx (u : VarId) (o : V) (ho : o ∈ D u) (β : Bnd V) (hb : BOk D β)
+    (hβu : β.lookup u = none) (c : Cond V) (hf : c.noFlat = true)
+    (hu : Cond.uniformOr c) (d : List (VarId × Option V)) :
+    d ∈ solsUnder W D c (freeIds c u) ((u, o) :: β) ↔
+      ∃ α, α u = o ∧ Ext β α ∧ (∀ v ∈ c.vars, α v ∈ D v) ∧ denote W α c = true ∧
+        d = canonOf (freeIds c u) α := by
+  have hsc := cond_sound_complete W D c hf
+  have hbok : BOk D ((u, o) :: β) := bok_cons hb ho
+  simp only [solsUnder, List.mem_map, List.mem_filter]
+  constructor
+  · rintro ⟨q, ⟨hq, hq2⟩, rfl⟩
+    have hq2' : q.2 = false := by simpa using hq2
+    have hq' : (q.1, false) ∈ evalCond W D c ((u, o) :: β) false := by
+      have e : (q.1, false) = q := by rw [← hq2']
+      rw [e]; exact hq
+    have htot := true_output_total W D c hf hu ((u, o) :: β) q.1 false hq'
+    have hbq := cond_bok W D c hf ((u, o) :: β) q.1 false false hbok hq'
+    have hadm : ∀ v ∈ c.vars, asgOfBnd q.1 v ∈ D v := by
+      intro v hv
+      obtain ⟨a, ha⟩ := bound_iff.1 (htot v hv)
+      simp only [asgOfBnd, ha, Option.getD_some]
+      exact hbq v a ha
+    have hs := (hsc.1 ((u, o) :: β) q.1 false false hq').2 (asgOfBnd q.1) hadm (ext_asgOfBnd q.1)
+    have hx := (ext_cons_fresh hβu).1 hs.1
+    refine ⟨asgOfBnd q.1, hx.1, hx.2, hadm, by simpa using hs.2, ?_⟩
+    simp only [restrictTo, canonOf]
+    apply List.map_congr_left
+    intro k hk
+    obtain ⟨a, ha⟩ := bound_iff.1 (htot k ((mem_freeIds c u k).1 hk).1)
+    simp [asgOfBnd, ha]
+  · rintro ⟨α, hαu, hβα, hv, hden, rfl⟩
+    have hext : Ext ((u, o) :: β) α := (ext_cons_fresh hβu).2 ⟨hαu, hβα⟩
+    obtain ⟨q, hq, he⟩ := hsc.2 ((u, o) :: β) α false hext hv (Or.inr hden)
+    have hs := (hsc.1 ((u, o) :: β) q.1 q.2 false hq)
+    have hq2 : q.2 = false := hs.1 rfl
+    have hq' : (q.1, false) ∈ evalCond W D c ((u, o) :: β) false := by
+      have e : (q.1, false) = q := by rw [← hq2]
+      rw [e]; exact hq
+    have htot := true_output_total W D c hf hu ((u, o) :: β) q.1 false hq'
+    refine ⟨q, ⟨hq, by simp [hq2]⟩, ?_⟩
+    simp only [restrictTo, canonOf]
+    apply List.map_congr_left
+    intro k hk
+    obtain ⟨a, ha⟩ := bound_iff.1 (htot k ((mem_freeIds c u k).1 hk).1)
+    rw [ha, he k a ha]
+
+/-- Membership in the final solution set = membership under every universal value. -/
+theorem forall_stage_mem (u : VarId) (c : Cond V) (hD : D u ≠ []) (β : Bnd V)
+    (hβu : β.lookup u = none) (β' : Bnd V) :
+    β' ∈ evalForAll W D u c β ↔
+      ∃ d0, (∀ o ∈ D u, d0 ∈ solsUnder W D c (freeIds c u) ((u, o) :: β)) ∧ β' = mergeBack d0 β := by
+  have huv : evalTerm W D (.var u) β = (D u).map fun o => ((u, o) :: β, o) := by
+    simp [evalTerm, hβu]
+  simp only [evalForAll, huv]
+  cases hDu : D u with
+  | nil => exact absurd hDu hD
+  | cons o1 os =>
+    simp only [List.map_cons, List.mem_map]
+    constructor
+    · rintro ⟨d0, hd0, rfl⟩
+      rw [foldl_filter_mem (fun (p' : Bnd V × V) d => (solsUnder W D c (freeIds c u) p'.1).contains d)] at hd0
+      refine ⟨d0, ?_, rfl⟩
+      intro o ho
+      rcases List.mem_cons.1 ho with rfl | ho
+      · exact hd0.1
+      · have := hd0.2 ((u, o) :: β, o) (List.mem_map.2 ⟨o, ho, rfl⟩)
+        simpa using this
+    · rintro ⟨d0, hd0, rfl⟩
+      refine ⟨d0, ?_, rfl⟩
+      rw [foldl_filter_mem (fun (p' : Bnd V × V) d => (solsUnder W D c (freeIds c u) p'.1).contains d)]
+      refine ⟨hd0 o1 List.mem_cons_self, ?_⟩
+      intro p' hp'
+      obtain ⟨o, ho, rfl⟩ := List.mem_map.1 hp'
+      simpa using hd0 o (List.mem_cons_of_mem _ ho)
+
+theorem evalForAllN_single (u : VarId) (c : Cond V) (β : Bnd V) :
+    evalForAllN W D [u] c β = evalForAll W D u c β := by
+  have hids : idsN c u [] = freeIds c u := by simp [idsN, freeIds]
+  simp only [evalForAllN, evalForAllG, evalForAll, hids]
+  have hs : ∀ ctx : Bnd V, (((evalCond W D c ctx false).filter fun q => !q.2).map (·.1)).map
+      (restrictTo (freeIds c u)) = solsUnder W D c (freeIds c u) ctx := by
+    intro ctx; simp [solsUnder, List.map_map, Function.comp_def]
+  cases evalTerm W D (.var u) β with
+  | nil => rfl
+  | cons p ps => simp only [hs]
+
+/-- What a conjunct says about a total assignment. -/
+def Stage.sem : Stage V → Asg V → Prop
+  | .cond c, α => denote W α c = true
+  | .forAll [u] c, α => ∀ o ∈ D u, denote W (upd α u o) c = true
+  | .forAll _ _, _ => False
+
+/-- The conjuncts the theorem covers; `U` = the universal variables of the chain (mentioned by no
+    ordinary conjunct, and by a for_all only as its own universal variable). -/
+def Stage.ok (U : List VarId) : Stage V → Prop
+  | .cond c => c.noFlat = true ∧ ∀ v ∈ c.vars, v ∉ U
+  | .forAll [u] c => c.noFlat = true ∧ Cond.uniformOr c ∧ D u ≠ [] ∧ u ∈ U ∧ ∀ v ∈ c.vars, v ∈ U → v = u
+  | .forAll _ _ => False
+
+/-- The non-universal variables of a conjunct. -/
+def Stage.vars : Stage V → List VarId
+  | .cond c => c.vars
+  | .forAll us c => c.vars.filter fun v => !us.contains v
+
+theorem lookup_none_of_not_bound {β : Bnd V} {v : VarId} (h : ¬ bound β v = true) : β.lookup v = none := by
+  unfold bound at h
+  cases hl : β.lookup v with
+  | none => rfl
+  | some a => rw [hl] at h; simp at h
+
+theorem stage_sound (U VS : List VarId) (s : Stage V) (hok : Stage.ok D U s)
+    (hvs : ∀ v ∈ s.vars, v ∈ VS) (β β' : Bnd V) (hb : BOk D β) (hc : ∀ u ∈ U, β.lookup u = none)
+    (h : β' ∈ evalStage W D s β) :
+    BOk D β' ∧ (∀ u ∈ U, β'.lookup u = none) ∧
+      ∀ α, (∀ v ∈ VS, α v ∈ D v) → Ext β' α → Ext β α ∧ Stage.sem W D s α := by
+  match s, hok, hvs, h with
+  | .cond c, hok, hvs, h =>
+    obtain ⟨hf, hcu⟩ := hok
+    simp only [evalStage, List.mem_map, List.mem_filter] at h
+    obtain ⟨q, ⟨hq, hq2⟩, rfl⟩ := h
+    have hq2' : q.2 = false := by simpa using hq2
+    have hq' : (q.1, false) ∈ evalCond W D c β false := by
+      have e : (q.1, false) = q := by rw [← hq2']
+      rw [e]; exact hq
+    refine ⟨cond_bok W D c hf β q.1 false false hb hq', ?_, ?_⟩
+    · intro u hu
+      apply lookup_none_of_not_bound
+      intro hbd
+      rcases (cond_supp W D c hf β q.1 false false hq').1 u hbd with h1 | h1
+      · rw [bound_iff] at h1; obtain ⟨a, ha⟩ := h1; rw [hc u hu] at ha; cases ha
+      · exact hcu u h1 hu
+    · intro α hadm hext
+      have := ((cond_sound_complete W D c hf).1 β q.1 false false hq').2 α
+        (fun v hv => hadm v (hvs v hv)) hext
+      exact ⟨this.1, by simpa [Stage.sem] using this.2⟩
+  | .forAll [u] c, hok, hvs, h =>
+    obtain ⟨hf, hu, hD, huU, hcu⟩ := hok
+    have hβu := hc u huU
+    simp only [evalStage, evalForAllN_single] at h
+    obtain ⟨d0, hd0, rfl⟩ := (forall_stage_mem W D u c hD β hβu β').1 h
+    obtain ⟨o1, ho1⟩ : ∃ o1, o1 ∈ D u := by
+      cases hDu : D u with
+      | nil => exact absurd hDu hD
+      | cons o1 os => exact ⟨o1, List.mem_cons_self⟩
+    obtain ⟨α1, _, hβα1, hv1, _, rfl⟩ := (sols_mem_ctx W D u o1 ho1 β hb hβu c hf hu d0).1 (hd0 o1 ho1)
+    rw [mergeBack_canon']
+    have hlk : ∀ v, List.lookup v ((List.map (fun k => (k, α1 k)) (freeIds c u)) ++ β) =
+        if v ∈ freeIds c u then some (α1 v) else β.lookup v := by
+      intro v
+      rw [List.lookup_append, lookup_map_ids]
+      split <;> simp
+    refine ⟨?_, ?_, ?_⟩
+    · intro v a hva
+      rw [hlk] at hva
+      split at hva
+      · rename_i hm; injection hva with hva; rw [← hva]; exact hv1 v ((mem_freeIds c u v).1 hm).1
+      · exact hb v a hva
+    · intro w hw
+      rw [hlk]
+      split
+      · rename_i hm
+        have hm' := (mem_freeIds c u w).1 hm
+        exact absurd (hcu w hm'.1 hw) hm'.2
+      · exact hc w hw
+    · intro α _ hext
+      have hagree : ∀ k ∈ freeIds c u, α k = α1 k := by
+        intro k hk
+        exact hext k (α1 k) (by rw [hlk]; simp [hk])
+      refine ⟨?_, ?_⟩
+      · intro v a hva
+        by_cases hm : v ∈ freeIds c u
+        · rw [hagree v hm]; exact hβα1 v a hva
+        · exact hext v a (by rw [hlk]; simp [hm, hva])
+      · intro o ho
+        obtain ⟨αo, hαu, _, _, hden, hcan⟩ := (sols_mem_ctx W D u o ho β hb hβu c hf hu _).1 (hd0 o ho)
+        rw [← hden]
+        apply denote_congr W c hf
+        intro v hv
+        by_cases e : v = u
+        · subst e; simp [upd, hαu]
+        · have hm : v ∈ freeIds c u := (mem_freeIds c u v).2 ⟨hv, e⟩
+          simp only [upd, e, if_false]
+          rw [hagree v hm, canonOf_inj _ _ _ hcan v hm]
+  | .forAll [] c, hok, _, _ => exact absurd hok (by simp [Stage.ok])
+  | .forAll (_ :: _ :: _) c, hok, _, _ => exact absurd hok (by simp [Stage.ok])
+
+theorem stage_complete (U VS : List VarId) (s : Stage V) (hok : Stage.ok D U s)
+    (hvs : ∀ v ∈ s.vars, v ∈ VS) (β : Bnd V) (hb : BOk D β) (hc : ∀ u ∈ U, β.lookup u = none)
+    (α : Asg V) (hadm : ∀ v ∈ VS, α v ∈ D v) (hext : Ext β α) (hsem : Stage.sem W D s α) :
+    ∃ β' ∈ evalStage W D s β, Ext β' α := by
+  match s, hok, hvs, hsem with
+  | .cond c, hok, hvs, hsem =>
+    obtain ⟨hf, _⟩ := hok
+    have hsc := cond_sound_complete W D c hf
+    obtain ⟨p, hp, hpe⟩ := hsc.2 β α false hext (fun v hv => hadm v (hvs v hv)) (Or.inr hsem)
+    have hp2 : p.2 = false := (hsc.1 β p.1 p.2 false hp).1 rfl
+    refine ⟨p.1, ?_, hpe⟩
+    simp only [evalStage, List.mem_map, List.mem_filter]
+    exact ⟨p, ⟨hp, by simp [hp2]⟩, rfl⟩
+  | .forAll [u] c, hok, hvs, hsem =>
+    obtain ⟨hf, hu, hD, huU, hcu⟩ := hok
+    have hβu := hc u huU
+    have hvs' : ∀ v ∈ c.vars, v ≠ u → v ∈ VS := by
+      intro v hv hne
+      apply hvs v
+      simp [Stage.vars, hv, hne]
+    refine ⟨mergeBack (canonOf (freeIds c u) α) β, ?_, ?_⟩
+    · simp only [evalStage, evalForAllN_single]
+      refine (forall_stage_mem W D u c hD β hβu _).2 ⟨canonOf (freeIds c u) α, ?_, rfl⟩
+      intro o ho
+      refine (sols_mem_ctx W D u o ho β hb hβu c hf hu _).2 ⟨upd α u o, by simp [upd], ?_, ?_, hsem o ho, ?_⟩
+      · intro v a hva
+        have : v ≠ u := by intro e; subst e; rw [hβu] at hva; cases hva
+        simp only [upd, this, if_false]; exact hext v a hva
+      · intro v hvc
+        by_cases e : v = u
+        · subst e; simpa [upd] using ho
+        · simp only [upd, e, if_false]; exact hadm v (hvs' v hvc e)
+      · simp only [canonOf]
+        apply List.map_congr_left
+        intro k hk
+        have : k ≠ u := ((mem_freeIds c u k).1 hk).2
+        simp [upd, this]
+    · rw [mergeBack_canon']
+      intro v a hva
+      rw [List.lookup_append, lookup_map_ids] at hva
+      by_cases hm : v ∈ freeIds c u
+      · simp [hm] at hva; exact hva
+      · simp [hm] at hva; exact hext v a hva
+  | .forAll [] c, hok, _, _ => exact absurd hok (by simp [Stage.ok])
+  | .forAll (_ :: _ :: _) c, hok, _, _ => exact absurd hok (by simp [Stage.ok])
+
+/-- The invariant of the left-to-right evaluation of the chain. -/
+theorem stages_inv (U VS : List VarId) : ∀ (stages done : List (Stage V)) (bs : List (Bnd V)),
+    (∀ s ∈ stages, Stage.ok D U s ∧ ∀ v ∈ s.vars, v ∈ VS) →
+    (∀ β ∈ bs, BOk D β ∧ (∀ u ∈ U, β.lookup u = none) ∧
+      ∀ α, (∀ v ∈ VS, α v ∈ D v) → Ext β α → ∀ s ∈ done, Stage.sem W D s α) →
+    (∀ α, (∀ v ∈ VS, α v ∈ D v) → (∀ s ∈ done, Stage.sem W D s α) → ∃ β ∈ bs, Ext β α) →
+    (∀ β ∈ stages.foldl (fun bs s => bs.flatMap (evalStage W D s)) bs,
+      BOk D β ∧ (∀ u ∈ U, β.lookup u = none) ∧
+      ∀ α, (∀ v ∈ VS, α v ∈ D v) → Ext β α → ∀ s ∈ done ++ stages, Stage.sem W D s α) ∧
+    (∀ α, (∀ v ∈ VS, α v ∈ D v) → (∀ s ∈ done ++ stages, Stage.sem W D s α) →
+      ∃ β ∈ stages.foldl (fun bs s => bs.flatMap (evalStage W D s)) bs, Ext β α) := by
+  intro stages
+  induction stages with
+  | nil =>
+    intro done bs _ h1 h2
+    simp only [List.foldl_nil, List.append_nil]
+    exact ⟨h1, h2⟩
+  | cons s rest ih =>
+    intro done bs hok h1 h2
+    have hs := hok s List.mem_cons_self
+    have := ih (done ++ [s]) (bs.flatMap (evalStage W D s))
+      (fun t ht => hok t (List.mem_cons_of_mem _ ht)) ?_ ?_
+    · simpa [List.append_assoc] using this
+    · intro β' hβ'
+      obtain ⟨β, hβ, hβ'⟩ := List.mem_flatMap.1 hβ'
+      obtain ⟨hb, hc, hd⟩ := h1 β hβ
+      obtain ⟨hb', hc', hs'⟩ := stage_sound W D U VS s hs.1 hs.2 β β' hb hc hβ'
+      refine ⟨hb', hc', ?_⟩
+      intro α hadm hext t ht
+      obtain ⟨hext0, hsem⟩ := hs' α hadm hext
+      rcases List.mem_append.1 ht with ht | ht
+      · exact hd α hadm hext0 t ht
+      · simp at ht; subst ht; exact hsem
+    · intro α hadm hall
+      obtain ⟨β, hβ, hext⟩ := h2 α hadm (fun t ht => hall t (List.mem_append.2 (Or.inl ht)))
+      obtain ⟨hb, hc, _⟩ := h1 β hβ
+      obtain ⟨β', hβ', hext'⟩ := stage_complete W D U VS s hs.1 hs.2 β hb hc α hadm hext
+        (hall s (List.mem_append.2 (Or.inr (by simp))))
+      exact ⟨β', List.mem_flatMap.2 ⟨β, hβ, hβ'⟩, hext'⟩
+
+/-- **C10, combined with other conditions by `and_`.**  For a chain of conjuncts - ordinary
+    conditions and for_alls whose conditions have uniform disjunctions, over non-empty domains,
+    in ANY order, several for_alls over the same universal variable included -
+    `an(set_of(sel, s₁, s₂, …))` returns exactly the projections of the assignments that satisfy
+    every ordinary conjunct and satisfy every for_all's condition for EVERY value of its universal
+    variable.  (Partial: nested for_alls, non-uniform disjunctions inside a for_all - C10-F1 - and
+    conjuncts that mention a universal variable free are outside the statement.) -/
+theorem c10_and_chain_partial (sel : List (Term V)) (stages : List (Stage V)) (U VS : List VarId)
+    (hfs : Terms.noFlat sel = true) (hok : ∀ s ∈ stages, Stage.ok D U s)
+    (hvs : ∀ s ∈ stages, ∀ v ∈ s.vars, v ∈ VS) (hsel : ∀ v ∈ Terms.vars sel, v ∈ VS)
+    (hne : ∀ v ∈ VS, D v ≠ []) (r : List V) :
+    r ∈ rowsStages W D sel stages ↔
+      ∃ α, (∀ v ∈ VS, α v ∈ D v) ∧ (∀ s ∈ stages, Stage.sem W D s α) ∧ r = termsVal W α sel := by
+  have hinv := stages_inv W D U VS stages [] [[]] (fun s hs => ⟨hok s hs, hvs s hs⟩)
+    (by
+      intro β hβ
+      simp at hβ; subst hβ
+      exact ⟨bok_nil D, fun _ _ => rfl, fun _ _ _ s hs => by simp at hs⟩)
+    (by
+      intro α _ _
+      exact ⟨[], by simp, fun v a h => by simp [List.lookup] at h⟩)
+  simp only [List.nil_append] at hinv
+  simp only [rowsStages, evalStages, List.mem_flatMap, List.mem_map]
+  constructor
+  · rintro ⟨β, hβ, q, hq, rfl⟩
+    obtain ⟨hb, _, hsems⟩ := hinv.1 β hβ
+    have hbq := args_bok W D sel hfs β q.1 q.2 hb hq
+    let α : Asg V := fun v => (q.1.lookup v).getD ((D v).headD default)
+    have hextq : Ext q.1 α := by intro v a h; simp [α, h]
+    have hadm : ∀ v ∈ VS, α v ∈ D v := by
+      intro v hv
+      cases hl : q.1.lookup v with
+      | some a => simp only [α, hl, Option.getD_some]; exact hbq v a hl
+      | none =>
+        simp only [α, hl, Option.getD_none]
+        cases hDv : D v with
+        | nil => exact absurd hDv (hne v hv)
+        | cons o os => simp
+    have hs := args_sound W D sel hfs β q.1 q.2 hq α hextq
+    exact ⟨α, hadm, hsems α hadm hs.1, hs.2.symm⟩
+  · rintro ⟨α, hadm, hsems, rfl⟩
+    obtain ⟨β, hβ, hext⟩ := hinv.2 α hadm hsems
+    obtain ⟨q, hq, he⟩ := args_complete W D sel hfs β α hext (fun v hv => hadm v (hsel v hv))
+    exact ⟨β, hβ, q, hq, (args_sound W D sel hfs β q.1 q.2 hq α he).2.symm⟩
+
+/-- `and_(d, for_all(u, c))` as the driver's legacy entry point computes it is the two-conjunct chain. -/
+theorem rowsForAll_eq_stages (sel : List (Term V)) (d : Cond V) (hd : d.noFlat = true) (u : VarId) (c : Cond V) :
+    rowsForAll W D sel (some d) u c = rowsStages W D sel [.cond d, .forAll [u] c] := by
+  have hfil : ((evalCond W D d [] false).filter fun q => !q.2) = evalCond W D d [] false := by
+    apply List.filter_eq_self.2
+    intro q hq
+    have := ((cond_sound_complete W D d hd).1 [] q.1 q.2 false hq).1 rfl
+    simp [this]
+  simp only [rowsForAll, rowsStages, evalStages, List.foldl_cons, List.foldl_nil, List.flatMap_cons,
+    List.flatMap_nil, List.append_nil, evalStage, hfil]
+  have hfun : (fun β => evalForAll W D u c β) = fun β => evalForAllN W D [u] c β := by
+    funext β; exact (evalForAllN_single W D u c β).symm
+  rw [hfun]
+  rfl
+
+theorem rowsForAll_eq_stages_none (sel : List (Term V)) (u : VarId) (c : Cond V) :
+    rowsForAll W D sel none u c = rowsStages W D sel [.forAll [u] c] := by
+  simp only [rowsForAll, rowsStages, evalStages, List.foldl_cons, List.foldl_nil, List.flatMap_cons,
+    List.flatMap_nil, List.append_nil, evalStage, evalForAllN_single]
+
+end Chain
+
+/-- Non-vacuity of the chain theorem: an ordinary conjunct written AFTER two for_alls over the same
+    universal variable; the answer is neither empty nor everything. -/
+example :
+    let D : VarId → List Nat := fun v => if v = 0 then [1, 2, 3, 4] else [1, 2]
+    rowsStages natWorld D [.var 0]
+      [.forAll [1] (.cmp .ge (.var 0) (.var 1)), .forAll [1] (.cmp .ne (.var 0) (.var 1)),
+       .cond (.cmp .lt (.var 0) (.lit 4))] = [[3]] := by decide
+
+/-- … and a nested for_all (model only, no theorem): `for_all(u, for_all(v, x ≥ u ∧ u ≥ v))`. -/
+example :
+    let D : VarId → List Nat := fun v => if v = 0 then [1, 2, 3] else if v = 1 then [2, 3] else [1, 2]
+    rowsStages natWorld D [.var 0]
+      [.forAll [1, 2] (.and (.cmp .ge (.var 0) (.var 1)) (.cmp .ge (.var 1) (.var 2)))] = [[3]] := by decide
 
 end Eql
